@@ -129,6 +129,7 @@ def norm(v):
 
     :SymPy: supported
     """
+    v = getvector(v, out='sequence')
     sum = 0
     for x in v:
         sum += x * x
@@ -162,6 +163,7 @@ def normsq(v):
 
     :SymPy: supported
     """
+    v = getvector(v, out='sequence')
     sum = 0
     for x in v:
         sum += x * x
